@@ -11,6 +11,7 @@
     @ fop <f32|f64> <op> <abits> <bbits>    agree       (floats: forms compared with each other only)
     @ fident <f32|f64> <abits>              ident-ok
     @ user …                                see Driver.C19User
+    @ trop|trsc|trneg|trpow|recop|recsc|recneg|recpow …   Trace / Record operators, see Driver.C19Wrap
 
   <ty> is one of the 12 integer types or f32/f64; <wrap> one of plain, wrapping, saturating,
   trace, record, trace_wrapping, record_wrapping, trace_saturating, record_saturating.
@@ -19,6 +20,7 @@
 import Driver.Parse
 import EasyMl.Model.Numeric
 import Driver.C19User
+import Driver.C19Wrap
 
 namespace Driver.C19
 open EasyMl EasyMl.Num
@@ -228,6 +230,10 @@ def step (s : State) (toks : List String) : State × String :=
   | ["@", "fop", _ty, _op, _a, _b] => (s, "agree")
   | ["@", "fident", _ty, _a] => (s, "ident-ok")
   | "@" :: "user" :: rest => (s, C19User.answer rest)
+  | "@" :: cmd :: rest =>
+    if ["trop", "trsc", "trneg", "trpow", "recop", "recsc", "recneg", "recpow"].contains cmd then
+      (s, C19Wrap.answer cmd rest)
+    else (s, "bad-op")
   | _ => (s, "bad-op")
 
 end Driver.C19
